@@ -719,6 +719,22 @@ void execute_c05(const Plan &plan, Verdict &v) {
             COUNT("fault_idle_flush_with_pending");
         }
         clock += data.size();
+        // every unit with a well-formed list names a defined command: its handler must have run (a well-formed item that the
+        // lexer rejects would otherwise go unnoticed, because then no reader is ever called)
+        {
+            bool call_overran = false;
+            for (auto &cr : w.calls) call_overran |= cr.overrun;
+            for (int mi : call) {
+                const PlannedMsg &m = msgs[(size_t) mi];
+                for (int ui2 : m.unit_idx) {
+                    const PlannedUnit &pu = run.units[(size_t) ui2];
+                    if (!pu.bad.empty() || v.violated || call_overran) continue;
+                    if (!pu.ran)
+                        v.fail("unit-not-run", fmt("unit=U%d items=%zu", ui2, pu.items.size()),
+                               fmt("unit \"%s\" has a well-formed parameter list but its handler never ran", c_escape(unit_text(pu, ui2)).substr(0, 120).c_str()));
+                }
+            }
+        }
         // malformed units: >= 1 command error from the malformed unit to the end of its message
         for (int mi : call) {
             const PlannedMsg &m = msgs[(size_t) mi];
